@@ -145,3 +145,33 @@ def judge_numbers(nums, label, rel='==', tol=1e-6, what=('P', 'Q')):
         return bad, 'a feasible point of the %s problem with value %.8g maps to value %.8g in the %s problem' % (what[0], nums['val_P'], nums['val_Q'], what[1])
     bad = nums['res_Q'] > 1e-6
     return bad, 'a feasible point of the %s problem maps to an infeasible point of the %s problem (residual %.6g, %s)' % (what[0], what[1], nums['res_Q'], label)
+
+
+def linmap_by_keys(P, Q, rename_P=None, rename_Q=None):
+    """phi_by_keys as an explicit LinMap (target = Q); variables of Q without counterpart map to 0"""
+    kp = keymap(P, rename_P)
+    M = LinMap(Q.n)
+    qk = Q.var_keys()
+    for i in range(Q.n):
+        k = qk.get(i)
+        if k is not None and rename_Q is not None:
+            k = rename_Q(k)
+        if k is not None and k in kp:
+            M.set(i, kp[k])
+    return M
+
+
+def replay_keys(opP, opQ, env, prefix, rename_P=None, rename_Q=None, pin=None, const=None):
+    """numeric re-evaluation of a key-based embedding P -> Q at the witness env (x named prefix+i) on the unshimmed problems.
+    pin: {index in Q: value} for variables of Q that the map sets to a constant"""
+    from . import obs as _obs
+    P, Q = lpsem.LP(opP), lpsem.LP(opQ)
+    M = linmap_by_keys(P, Q, rename_P, rename_Q)
+    x0 = [float(env.get('%s%d' % (prefix, i), 0.0)) for i in range(P.n)]
+    oP, oQ = _obs.to_jsonable(_obs.problem_obs(opP)), _obs.to_jsonable(_obs.problem_obs(opQ))
+    from . import scen
+    y = M.apply_num(x0)
+    for i, v in (pin or {}).items():
+        y[i] = v
+    return dict(res_P=scen.feasibility_residual(oP, x0), res_Q=scen.feasibility_residual(oQ, y),
+                val_P=-sum(c * v for c, v in zip(oP['c'], x0)) + (const or 0.0), val_Q=-sum(c * v for c, v in zip(oQ['c'], y)))
